@@ -61,6 +61,25 @@ Proof. reflexivity. Qed.
 Lemma len_set_badwake s : length (thr (set_badwake s)) = length (thr s).
 Proof. reflexivity. Qed.
 
+(** the other components of the state *)
+Lemma clock_modify s i f : clock (modify s i f) = clock s. Proof. reflexivity. Qed.
+Lemma joins_modify s i f : joins (modify s i f) = joins s. Proof. reflexivity. Qed.
+Lemma badwake_modify s i f : badwake (modify s i f) = badwake s. Proof. reflexivity. Qed.
+Lemma crashed_modify s i f : crashed (modify s i f) = crashed s. Proof. reflexivity. Qed.
+Lemma clock_tick s : clock (tick_clock s) = S (clock s). Proof. reflexivity. Qed.
+Lemma joins_tick s : joins (tick_clock s) = joins s. Proof. reflexivity. Qed.
+Lemma badwake_tick s : badwake (tick_clock s) = badwake s. Proof. reflexivity. Qed.
+Lemma crashed_tick s : crashed (tick_clock s) = crashed s. Proof. reflexivity. Qed.
+Lemma clock_add_join s j t v : clock (add_join s j t v) = clock s. Proof. reflexivity. Qed.
+Lemma joins_add_join s j t v : joins (add_join s j t v) = (j, t, v, clock s) :: joins s. Proof. reflexivity. Qed.
+Lemma badwake_add_join s j t v : badwake (add_join s j t v) = badwake s. Proof. reflexivity. Qed.
+Lemma clock_set_badwake s : clock (set_badwake s) = clock s. Proof. reflexivity. Qed.
+Lemma joins_set_badwake s : joins (set_badwake s) = joins s. Proof. reflexivity. Qed.
+Lemma badwake_set_badwake s : badwake (set_badwake s) = true. Proof. reflexivity. Qed.
+Lemma clock_set_crashed s : clock (set_crashed s) = clock s. Proof. reflexivity. Qed.
+Lemma joins_set_crashed s : joins (set_crashed s) = joins s. Proof. reflexivity. Qed.
+Lemma badwake_set_crashed s : badwake (set_crashed s) = badwake s. Proof. reflexivity. Qed.
+
 (** the system *)
 Definition is_init (s : state) : Prop := exists n, s = init_state n.
 Definition Reach : state -> Prop := reachable is_init step.
@@ -80,12 +99,16 @@ Qed.
 (** expose one transition: afterwards the goal speaks about an explicit successor state *)
 Ltac break_match H :=
   repeat (match type of H with
-          | context [match ?x with _ => _ end] => destruct x eqn:?
-          | context [if ?b then _ else _] => destruct b eqn:?
+          | context [match ?x with _ => _ end] =>
+              lazymatch x with
+              | context [match _ with _ => _ end] => fail
+              | _ => destruct x eqn:?
+              end
           end; try discriminate H).
 
 Ltac step_inv H :=
   unfold step, step_cfg, call_cfg, tick, cbtick, ret, ret_ok, acquire, do_create, wake in H;
+  cbn [cfg_null_guard cfg_honour_det cfg_now negb andb] in H;
   break_match H;
   injection H as H; subst.
 
@@ -100,9 +123,13 @@ Ltac inr_tac :=
   end.
 
 (** normal form of [gt s' k] for a successor state built from [modify]s *)
+Ltac st_norm :=
+  rewrite ?clock_tick, ?joins_tick, ?badwake_tick, ?clock_add_join, ?joins_add_join, ?badwake_add_join,
+          ?clock_set_badwake, ?joins_set_badwake, ?badwake_set_badwake, ?clock_set_crashed, ?joins_set_crashed,
+          ?badwake_set_crashed, ?clock_modify, ?joins_modify, ?badwake_modify.
 Ltac gt_norm :=
   repeat first [ rewrite gt_tick_clock | rewrite gt_add_join | rewrite gt_set_badwake | rewrite gt_set_crashed
-               | rewrite gt_modify by inr_tac ].
+               | rewrite gt_modify by inr_tac ]; st_norm.
 Ltac gt_norm_in H :=
   repeat first [ rewrite gt_tick_clock in H | rewrite gt_add_join in H | rewrite gt_set_badwake in H | rewrite gt_set_crashed in H
                | rewrite gt_modify in H by inr_tac ].
@@ -162,41 +189,50 @@ Definition stack_freed_spec (th : thread) : nat :=
 Definition alloc_spec (th : thread) : nat := match main th with NoThread => 0 | _ => 1 end.
 
 Record Inv (s : state) : Prop := mkInv {
+  (* usage contract bookkeeping: one reaper per thread *)
   i_claim : forall j t, reap_pc (main (gt s j)) t = true ->
               claimed (gh (gt s t)) = Some j /\ main (gt s t) <> NoThread;
-  i_cbmain : forall k x, cb (gt s k) = CbJoinSet x -> main (gt s k) = JSusp x;
-  i_cbfin : forall k, fin_cb (cb (gt s k)) = true -> main (gt s k) = Finished;
-  i_lock_a : forall t j, lockh (gt s t) = Some j -> holds (gt s j) j t = true;
-  i_lock_b : forall j t, holds (gt s j) j t = true -> lockh (gt s t) = Some j;
-  i_rdone : forall t, rdone (gh (gt s t)) = true ->
-              claimed (gh (gt s t)) <> None /\ forall j, reap_pc (main (gt s j)) t = false;
+  i_rdone_c : forall t, rdone (gh (gt s t)) = true -> claimed (gh (gt s t)) <> None;
+  i_rdone_p : forall t j, rdone (gh (gt s t)) = true -> reap_pc (main (gt s j)) t = false;
   i_det_rdone : forall t, detached (gt s t) = true -> rdone (gh (gt s t)) = true;
   i_fresh : forall k, main (gt s k) = NoThread -> gt s k = tnone;
+  (* control state *)
+  i_cbmain : forall k x, cb (gt s k) = CbJoinSet x -> main (gt s k) = JSusp x;
+  i_cbfin : forall k, fin_cb (cb (gt s k)) = true -> main (gt s k) = Finished;
+  (* the spinlock: held exactly by the activity between its acquisition and its unlocking store *)
+  i_lock_a : forall t j, lockh (gt s t) = Some j -> holds (gt s j) j t = true;
+  i_lock_b : forall j t, holds (gt s j) j t = true -> lockh (gt s t) = Some j;
+  (* the words *)
   i_status : forall k, status (gt s k) = status_spec (gt s k);
-  i_cbdet : forall k, (cb (gt s k) = CbFreeDesc -> detached (gt s k) = true) /\
-                      (cb (gt s k) = CbReady2 -> detached (gt s k) = false);
-  i_dset : forall j t, main (gt s j) = DSet t -> is_finished (status (gt s t)) = false;
-  i_reap : forall j t, main (gt s j) = JReap t \/ main (gt s j) = DReap t -> status (gt s t) = ST_FREE_READY2;
+  i_cbdet_f : forall k, cb (gt s k) = CbFreeDesc -> detached (gt s k) = true;
+  i_cbdet_r : forall k, cb (gt s k) = CbReady2 -> detached (gt s k) = false;
+  i_dset : forall j t, main (gt s j) = DSet t -> status (gt s t) <> ST_FREE_READY2;
+  i_jreap : forall j t, main (gt s j) = JReap t -> status (gt s t) = ST_FREE_READY2;
+  i_dreap : forall j t, main (gt s j) = DReap t -> status (gt s t) = ST_FREE_READY2;
   i_jt : forall t j, join_thread (gt s t) = Some j -> before_readjoin (gt s t) = true ->
            suspended_on (gt s j) t = true;
-  i_runs : forall k, (started_pc (main (gt s k)) = false -> runs (gh (gt s k)) = 0 /\ got (gh (gt s k)) = None) /\
-                     (started_pc (main (gt s k)) = true -> runs (gh (gt s k)) = 1 /\ got (gh (gt s k)) = Some (garg (gh (gt s k))));
+  (* the start function *)
+  i_runs0 : forall k, started_pc (main (gt s k)) = false -> runs (gh (gt s k)) = 0 /\ got (gh (gt s k)) = None;
+  i_runs1 : forall k, started_pc (main (gt s k)) = true ->
+              runs (gh (gt s k)) = 1 /\ got (gh (gt s k)) = Some (garg (gh (gt s k)));
   i_created : forall k cf, main (gt s k) = Created cf -> result (gt s k) = garg (gh (gt s k));
-  i_ledger : forall k, desc_alloc (gh (gt s k)) = alloc_spec (gt s k) /\ stack_alloc (gh (gt s k)) = alloc_spec (gt s k) /\
-                       stack_freed (gh (gt s k)) = stack_freed_spec (gt s k);
   i_retv : forall k, finishing_pc (main (gt s k)) = true ->
-             retv (gh (gt s k)) = Some (result (gt s k)) /\ exists b, t_ret (gh (gt s k)) = Some b /\ b < clock s;
-  i_freed : forall t, desc_freed (gh (gt s t)) = reaped (gh (gt s t)) /\
-              (desc_freed (gh (gt s t)) = 0 \/
-               (desc_freed (gh (gt s t)) = 1 /\ rdone (gh (gt s t)) = true /\ finish_complete (gt s t) = true));
+             retv (gh (gt s k)) = Some (result (gt s k)) /\ 0 < t_ret (gh (gt s k)) /\ t_ret (gh (gt s k)) < clock s;
+  (* ledger *)
+  i_alloc : forall k, desc_alloc (gh (gt s k)) = alloc_spec (gt s k) /\ stack_alloc (gh (gt s k)) = alloc_spec (gt s k);
+  i_sfreed : forall k, stack_freed (gh (gt s k)) = stack_freed_spec (gt s k);
+  i_freed_eq : forall t, desc_freed (gh (gt s t)) = reaped (gh (gt s t));
+  i_freed : forall t, desc_freed (gh (gt s t)) = 0 \/
+              (desc_freed (gh (gt s t)) = 1 /\ rdone (gh (gt s t)) = true /\ finish_complete (gt s t) = true);
   i_rdone_f : forall t, rdone (gh (gt s t)) = true -> detached (gt s t) = true \/ desc_freed (gh (gt s t)) = 1;
   i_det_f : forall t, detached (gt s t) = true -> finish_complete (gt s t) = true -> desc_freed (gh (gt s t)) = 1;
-  i_ready2 : forall t, (status (gt s t) = ST_FREE_READY2 ->
-                         exists a b, t_ready2 (gh (gt s t)) = Some a /\ t_ret (gh (gt s t)) = Some b /\ b < a /\ a < clock s) /\
-                       (t_ready2 (gh (gt s t)) <> None -> status (gt s t) = ST_FREE_READY2);
+  (* history *)
+  i_ready2 : forall t, status (gt s t) = ST_FREE_READY2 ->
+               0 < t_ret (gh (gt s t)) /\ t_ret (gh (gt s t)) < t_ready2 (gh (gt s t)) /\ t_ready2 (gh (gt s t)) < clock s;
+  i_ready2_c : forall t, t_ready2 (gh (gt s t)) <> 0 -> status (gt s t) = ST_FREE_READY2;
   i_joins : forall j t v tm, In (j, t, v, tm) (joins s) ->
               status (gt s t) = ST_FREE_READY2 /\ retv (gh (gt s t)) = Some v /\
-              exists a, t_ready2 (gh (gt s t)) = Some a /\ a < tm /\ tm < clock s;
+              t_ready2 (gh (gt s t)) < tm /\ tm < clock s;
   i_badwake : badwake s = false
 }.
 
@@ -208,6 +244,124 @@ Proof.
            | |- context [if (?a =? ?b) then _ else _] => destruct (Nat.eqb_spec a b); subst
            end;
     cbn in *; try discriminate; try tauto; try (split; intros; try discriminate; try tauto; auto);
-    try (intuition discriminate).
-  all: try (split; [intros; discriminate|]; intros; discriminate).
+    try (intuition discriminate); try lia.
 Qed.
+
+(* ------------------------------------------------------------------------------------------ *)
+(** * Preservation: tactics *)
+
+Inductive Mk2 (x y : nat) : Prop := mk2.
+Inductive Mk1 (x : nat) : Prop := mk1.
+Ltac forall_nat2 tac :=
+  repeat match goal with
+         | x : nat, y : nat |- _ =>
+             lazymatch goal with _ : Mk2 x y |- _ => fail | _ => idtac end; tac x y; pose proof (mk2 x y)
+         end;
+  repeat match goal with H : Mk2 _ _ |- _ => clear H end.
+Ltac forall_nat1 tac :=
+  repeat match goal with
+         | x : nat |- _ =>
+             lazymatch goal with _ : Mk1 x |- _ => fail | _ => idtac end; tac x; pose proof (mk1 x)
+         end;
+  repeat match goal with H : Mk1 _ |- _ => clear H end.
+Ltac forall_nat tac2 := forall_nat2 tac2; forall_nat1 ltac:(fun x => tac2 x x).
+
+Ltac rew_pcs :=
+  repeat match goal with
+         | H : main (gt _ _) = _ |- _ => progress (rewrite H in * )
+         | H : cb (gt _ _) = _ |- _ => progress (rewrite H in * )
+         | H : join_thread (gt _ _) = _ |- _ => progress (rewrite H in * )
+         | H : detached (gt _ _) = _ |- _ => progress (rewrite H in * )
+         | H : gt _ _ = tnone |- _ => progress (rewrite H in * )
+         end.
+
+Lemma pc_is_nothread_true p : pc_is_nothread p = true -> p = NoThread.
+Proof. destruct p; cbn; congruence. Qed.
+Lemma pc_is_nothread_false p : pc_is_nothread p = false -> p <> NoThread.
+Proof. destruct p; cbn; congruence. Qed.
+Lemma opt_is_none_true {A} (o : option A) : opt_is_none o = true -> o = None.
+Proof. destruct o; cbn; congruence. Qed.
+Lemma opt_is_none_false {A} (o : option A) : opt_is_none o = false -> o <> None.
+Proof. destruct o; cbn; congruence. Qed.
+Lemma fin3 : is_finished ST_FREE_READY2 = true.
+Proof. reflexivity. Qed.
+
+Ltac eqb_hyps :=
+  repeat match goal with
+         | H : (_ =? _) = true |- _ => apply Nat.eqb_eq in H; subst
+         | H : (_ =? _) = false |- _ => apply Nat.eqb_neq in H
+         | H : (_ <? _) = true |- _ => apply Nat.ltb_lt in H
+         | H : _ && _ = true |- _ => apply andb_prop in H; destruct H
+         | H : pc_is_nothread _ = true |- _ => apply pc_is_nothread_true in H
+         | H : pc_is_nothread _ = false |- _ => apply pc_is_nothread_false in H
+         | H : opt_is_none _ = true |- _ => apply opt_is_none_true in H
+         | H : opt_is_none _ = false |- _ => apply opt_is_none_false in H
+         | H : (_ =? _)%Z = true |- _ => apply Z.eqb_eq in H
+         | H : (_ =? _)%Z = false |- _ => apply Z.eqb_neq in H
+         | H : negb _ = true |- _ => apply negb_true_iff in H
+         | H : negb _ = false |- _ => apply negb_false_iff in H
+         end.
+
+Ltac simp :=
+  unfold holds, status_spec, finish_complete, suspended_on, before_readjoin, stack_freed_spec, alloc_spec in *;
+  cbn [reap_pc holds_main holds_cb started_pc finishing_pc fin_cb orb andb negb
+       pc_is_nothread exists_thread opt_is_none In
+       status join_thread detached lockh result main cb gh
+       set_status set_jt set_detached set_lockh set_result set_main set_cb set_gh unlock new_thread
+       runs garg got retv claimed rdone reaped desc_alloc desc_freed stack_alloc stack_freed stack_sz t_ret t_ready2
+       g_started g_returned g_claim g_rdone g_reap g_free_stack g_ready2 tnone ghost0 thread_main0] in *.
+
+Ltac bool_props := rewrite ?orb_true_iff, ?orb_false_iff, ?andb_true_iff in *.
+
+Ltac finish_core :=
+  intros; simp; rew_pcs; simp; rewrite ?Nat.eqb_refl in *; eqb_hyps; simp; bool_props.
+Ltac finish := finish_core; solve [intuition (try congruence; try lia)].
+Ltac finish_dbg := finish_core; try solve [intuition (try congruence; try lia)].
+
+(** a pending callback determines the main program counter *)
+Ltac cb_main HI :=
+  repeat match goal with
+  | H : cb (gt ?s ?j) = CbJoinSet ?t |- _ =>
+      lazymatch goal with _ : main (gt s j) = _ |- _ => fail | _ => idtac end;
+      pose proof (i_cbmain _ HI j t H)
+  | H : cb (gt ?s ?j) = ?c |- _ =>
+      lazymatch goal with _ : main (gt s j) = _ |- _ => fail | _ => idtac end;
+      assert (main (gt s j) = Finished) by (apply (i_cbfin _ HI j); rewrite H; reflexivity)
+  end.
+
+(** an unused position is exactly [tnone] *)
+Ltac use_fresh HI :=
+  repeat match goal with
+  | H : main (gt ?s ?c) = NoThread |- _ =>
+      lazymatch goal with _ : gt s c = tnone |- _ => fail | _ => idtac end;
+      pose proof (i_fresh _ HI c H)
+  end.
+
+(** the target of the operation in progress exists, hence is in range *)
+Ltac target_inr HI :=
+  repeat match goal with
+  | H : main (gt ?s ?j) = ?p |- _ =>
+      let t := match p with
+               | JLock ?t => t | JCheck ?t => t | JSpin ?t => t | JReap ?t => t | TLock ?t _ => t | TCheck ?t _ => t
+               | TBusy ?t => t | DFast ?t => t | DLock ?t => t | DCheck ?t => t | DSet ?t => t | DSpin ?t => t | DReap ?t => t
+               | JSusp ?t => t
+               end in
+      lazymatch goal with _ : t < length (thr s) |- _ => fail | _ => idtac end;
+      assert (t < length (thr s)) by (apply main_inr; apply (i_claim _ HI j t); rewrite H; cbn [reap_pc]; apply Nat.eqb_refl)
+  end.
+
+Ltac intro_vars :=
+  repeat lazymatch goal with
+         | |- forall x : ?T, _ => lazymatch type of T with Prop => fail | _ => intro end
+         end.
+
+(** after [step_inv]: normalise the successor state, split on the index equalities, instantiate the
+    invariant of the predecessor state with [inst], close *)
+Ltac prep HI inst :=
+  intro_vars; unfold exists_thread in *; eqb_hyps; cb_main HI; target_inr HI; use_fresh HI;
+  pose proof fin3; gt_norm; eqb_cases; eqb_hyps; inst; rew_pcs.
+Ltac crunch HI inst := prep HI inst; finish.
+Ltac crunch_dbg HI inst := prep HI inst; finish_dbg.
+
+Ltac i2 HI f := forall_nat ltac:(fun x y => pose proof (f _ HI x y)).
+Ltac i1 HI f := forall_nat1 ltac:(fun x => pose proof (f _ HI x)).
